@@ -13,6 +13,7 @@ import (
 	"os"
 	"runtime"
 	"sort"
+	"strings"
 	"sync"
 	"time"
 
@@ -249,34 +250,69 @@ func (t *tracer) walk(h uint, pos uint64) pmtref.Hash {
 	return o
 }
 
-func coqTable(tbl [][3]pmtref.Hash) string {
-	it := make([]string, len(tbl))
-	for i, e := range tbl {
-		it[i] = fmt.Sprintf("(%s, %s, %s)", coqHash(e[0]), coqHash(e[1]), coqHash(e[2]))
+// namer gives every distinct hash of a case one `let` binding (Coq spends ~4 ms per 32-byte literal);
+// the alphabet hashes are defined once in the preamble.
+type namer struct {
+	names map[pmtref.Hash]string
+	order []pmtref.Hash
+}
+
+func newNamer() *namer { return &namer{names: map[pmtref.Hash]string{}} }
+func (nm *namer) h(x pmtref.Hash) string {
+	if s, ok := named[x]; ok {
+		return s
+	}
+	if s, ok := nm.names[x]; ok {
+		return s
+	}
+	s := fmt.Sprintf("h%d", len(nm.order))
+	nm.names[x] = s
+	nm.order = append(nm.order, x)
+	return s
+}
+func (nm *namer) hs(xs []pmtref.Hash) string {
+	it := make([]string, len(xs))
+	for i, x := range xs {
+		it[i] = nm.h(x)
 	}
 	return vh.CoqList(it)
+}
+func (nm *namer) wrap(body string) string {
+	var sb strings.Builder
+	sb.WriteString("(")
+	for i, x := range nm.order {
+		fmt.Fprintf(&sb, "let h%d := %s in ", i, vh.CoqBytes(x[:]))
+	}
+	sb.WriteString(body)
+	sb.WriteString(")")
+	return sb.String()
 }
 
 func addCase(count uint32, hashes []pmtref.Hash, flags []byte, o implOut, withTable bool, family string) {
 	if o.Panic != "" {
 		return
 	}
+	nm := newNamer()
 	tbl := "[]"
 	if withTable && count != 0 && count <= maxTxn && len(hashes) <= int(count) && 8*len(flags) >= len(hashes) {
 		t := &tracer{n: uint64(count), bits: pmtref.Unpack(flags), hashes: hashes}
 		t.walk(pmtref.Height(uint64(count)), 0)
-		tbl = coqTable(t.tbl)
+		it := make([]string, len(t.tbl))
+		for i, e := range t.tbl {
+			it[i] = fmt.Sprintf("(%s, %s, %s)", nm.h(e[0]), nm.h(e[1]), nm.h(e[2]))
+		}
+		tbl = vh.CoqList(it)
 	}
 	ms := make([]string, len(o.Items))
 	for i := range o.Items {
-		ms[i] = fmt.Sprintf("(%d, %s)", o.Items[i], coqHash(o.Matches[i]))
+		ms[i] = fmt.Sprintf("(%d, %s)", o.Items[i], nm.h(o.Matches[i]))
 	}
 	root := "[]"
 	if o.OK {
-		root = coqHash(o.Root)
+		root = nm.h(o.Root)
 	}
-	term := fmt.Sprintf("Ext %s %d %d %s %s %s %s %s %s", tbl, maxTxn, count, coqHashes(hashes), vh.CoqBytes(flags),
-		vh.CoqBool(o.OK), vh.CoqBool(o.Bad), root, vh.CoqList(ms))
+	term := nm.wrap(fmt.Sprintf("Ext %s %d %d %s %s %s %s %s %s", tbl, maxTxn, count, nm.hs(hashes), vh.CoqBytes(flags),
+		vh.CoqBool(o.OK), vh.CoqBool(o.Bad), root, vh.CoqList(ms)))
 	cases.Add(term, map[string]interface{}{"op": "ExtractMatches", "family": family, "count": count, "hashes": hexHashes(hashes),
 		"flags": hex.EncodeToString(flags), "impl_ok": o.OK, "impl_bad": o.Bad, "impl_root": hex.EncodeToString(o.Root[:]), "impl_items": o.Items})
 }
@@ -860,7 +896,7 @@ func main() {
 		exhaustive("scope{A,B,H(A,A)}", []pmtref.Hash{A, B, AA}, 7, upTo, allBytes, 3, rng.Fork("ex1"))
 		exhaustive("scope{0,A,H(A,B)}", []pmtref.Hash{Z, A, AB}, 4, upTo, allBytes, 1, rng.Fork("ex2"))
 		skeletonFamily(rng.Fork("skel"), 10, 6)
-		mutationStream(rng.Fork("mut"), 3000, 5000, 53, 4, 120)
+		mutationStream(rng.Fork("mut"), 3000, 5000, 151, 4, 120)
 	default:
 		// quick: the same scope with the second flag byte restricted to 8 values (all 2-byte strings in the thorough tier)
 		second := []int{0, 1, 3, 0x15, 0x2a, 0x7f, 0x80, 0xff}
